@@ -1413,12 +1413,78 @@ static void case_history(Src& s0, Ctx& ctx) {
     if (ctx.logging()) ctx.log("history: " + t);
 }
 
+// ---------------------------------------------------------------------------------------------- class D: the captured traffic
+// The captures of libtins' own tests (which validated the reference in prop_setup) run through libtins itself: beacon,
+// four handshake messages, data frames. Expected plaintext = what the reference receiver recovers.
+static void case_capture(Src& s, Ctx& ctx) {
+    unsigned which = (unsigned)s.pick(4);
+    unsigned container = (unsigned)s.weighted({7, 2, 1});
+    bool with_beacon = s.boolean();
+    ctx.label("class-capture");
+    ctx.hash(std::string("capture")); ctx.hash(which); ctx.hash(container); ctx.hash(with_beacon);
+    if (which == 3) {
+        const wcap::Frame& f = wcap::WEP[0];
+        Bytes frame(f.data, f.data + f.size);
+        MacHdr h;
+        size_t hl = MacHdr::parse(frame.data(), frame.size(), h);
+        Bytes body(frame.begin() + hl, frame.end()), plain, key(5, 0x1f);
+        wref::wep_decap(key, body, plain);
+        Tins::Crypto::WEPDecrypter dec;
+        dec.add_password(hw(h.a2), std::string(5, '\x1f'));
+        std::unique_ptr<Tins::PDU> top = parse_frame(container, frame);
+        RunResult r = run_decrypt(dec, *top);
+        check_outcome(ctx, "C09:WEP:capture", *top, r, +1, plain, true, "captured WEP frame of wep_decrypt_test.cpp");
+        ctx.sample("capture WEP");
+        return;
+    }
+    static const struct { const wcap::Frame* fr; size_t n; int pool; bool ccmp; const char* name; } CAPS[3] = {
+        {wcap::CCMP, wcap::CCMP_COUNT, 0, true, "CCMP"}, {wcap::CCMP_QOS, wcap::CCMP_QOS_COUNT, 1, true, "CCMP-QoS"}, {wcap::TKIP, wcap::TKIP_COUNT, 2, false, "TKIP"}};
+    const PoolEntry& pe = g_pool[CAPS[which].pool];
+    Tins::Crypto::WPA2Decrypter dec;
+    MacHdr h1;
+    MacHdr::parse(CAPS[which].fr[1].data, CAPS[which].fr[1].size, h1);
+    if (with_beacon) dec.add_ap_data(pe.pass, pe.ssid);
+    else dec.add_ap_data(pe.pass, pe.ssid, hw(h1.a2));
+    // reference keys
+    uint8_t anonce[32], snonce[32];
+    {
+        MacHdr h;
+        size_t hl = MacHdr::parse(CAPS[which].fr[1].data, CAPS[which].fr[1].size, h);
+        memcpy(anonce, CAPS[which].fr[1].data + hl + 8 + 17, 32);
+        hl = MacHdr::parse(CAPS[which].fr[2].data, CAPS[which].fr[2].size, h);
+        memcpy(snonce, CAPS[which].fr[2].data + hl + 8 + 17, 32);
+    }
+    KeySet k;
+    k.ptk = wref::ptk_derive(pe.pmk, h1.a2, h1.a1, anonce, snonce, 80);
+    std::string tag = std::string("C09:") + (CAPS[which].ccmp ? "CCMP" : "TKIP") + ":capture";
+    for (size_t i = with_beacon ? 0 : 1; i < CAPS[which].n; ++i) {
+        Bytes frame(CAPS[which].fr[i].data, CAPS[which].fr[i].data + CAPS[which].fr[i].size);
+        std::unique_ptr<Tins::PDU> top = parse_frame(container, frame);
+        RunResult r = run_decrypt(dec, *top);
+        std::ostringstream d;
+        d << "capture " << CAPS[which].name << " frame " << i;
+        if (i < 5) {
+            VCHECK(ctx, !r.threw && !r.ret, tag + ":handshake-frame", d.str() << ": decrypt returned " << r.ret << " / threw " << r.threw);
+        } else {
+            MacHdr h;
+            size_t hl = MacHdr::parse(frame.data(), frame.size(), h);
+            Bytes body(frame.begin() + hl, frame.end());
+            Verdict v = ref_decap(CAPS[which].ccmp ? CCMP : TKIP, k, h, body);
+            check_outcome(ctx, tag, *top, r, +1, v.plain, true, d.str());
+        }
+    }
+    const Tins::Crypto::WPA2Decrypter::keys_map& km = dec.get_keys();
+    VCHECK(ctx, km.size() == 1 && memcmp(km.begin()->second.get_ptk().data(), k.ptk.data(), 64) == 0 && km.begin()->second.uses_ccmp() == CAPS[which].ccmp,
+           tag + ":keys", "keys learned from the captured handshake differ from the reference PTK");
+    ctx.sample(std::string("capture ") + CAPS[which].name);
+}
+
 void prop(Src& s, Ctx& ctx) {
     ensure_setup(ctx);
-    switch (s.weighted({10, 6, 7})) {
-        default:
-        case 0: case_direct(s, ctx); break;
-        case 1: case_hostile(s, ctx); break;
-        case 2: case_history(s, ctx); break;
-    }
+    unsigned sel = s.u8();
+    if (sel >= 253) { case_capture(s, ctx); return; }   // ~1 %: the captured traffic of libtins' own tests
+    sel %= 23;
+    if (sel < 10) case_direct(s, ctx);
+    else if (sel < 16) case_hostile(s, ctx);
+    else case_history(s, ctx);
 }
